@@ -26,6 +26,9 @@ func runC07(c *Ctx) {
 	// the goroutine that forwards STATs to the writer must never wait on a
 	// context-free primitive (a limited writer group would stall the stream; shared with C04)
 	r04_11(c, "R07.7")
+	// liveness under backpressure: nothing waits for the peer while holding a
+	// mutex the receive loop needs (shared with C08)
+	r08_9(c, "R07.8")
 }
 
 // recvLoop returns the receive-loop literal of receiver.run.
